@@ -10,6 +10,7 @@
 
 pub mod rt;
 pub mod sfnt;
+pub mod gen;
 pub mod props;
 
 use rt::*;
